@@ -88,6 +88,17 @@ func c02Moves(w *wctx, p *position.Position, r *refchess.Pos, variant string) {
 
 func c02State(w *wctx, p *position.Position, r *refchess.Pos) {
 	c02Moves(w, p, r, "as-enumerated")
+	// the position a search reaches by a null move is a position like any other: every legal move made on the live object
+	// must give the successor that the rules define for the position its own FEN describes (tree walks only: keeps the
+	// family sweeps at their size)
+	if w.seed != "" && !r.InCheck(r.White) {
+		p.DoNullMove()
+		if rn, err := refchess.ParseFEN(p.StringFen()); err == nil && rn.Valid() {
+			c02Moves(w, p, rn, "after DoNullMove")
+			w.run.Count("null_moved_positions", 1)
+		}
+		p.UndoNullMove()
+	}
 	if w.seed == "" && (w.run.Tier == "thorough" || w.fam != "P3") { // k-man families: also with non-trivial clocks / move numbers
 		r2 := r.Clone()
 		r2.Half, r2.Full = 37, 41
